@@ -33,3 +33,9 @@ import r_io as IO
 reg("C07", "other", [IO.s_readers, IO.s_ioerr, IO.t_eof, IO.h_noswallow, D.h_block], "dev", "dev")
 reg("C14", "other", [IO.s_ioerr, IO.s_readers, IO.s_writers, IO.h_fromio, IO.h_toio, IO.h_noswallow, IO.t_eof, IO.h_async1], "dev", "dev")
 reg("C09", "other", [IO.h_async1, IO.h_asref, IO.s_writers, IO.s_pure, L.l_hdr, L.l_fixed], "dev", "dev")
+import r_ctor as C
+reg("C12", "proof", [C.h_priv, C.h_ctor, C.h_utf8, C.h_payfmt, C.h_accessors, T.t_width], "dev", "dev")
+PROPS["C18"]["rules"] += [C.h_tn, C.h_ctor]
+reg("C17", "other", [C.h_fields, C.h_accessors, C.h_ctor], "dev", "dev")
+PROPS["C13"]["rules"] += [C.s_gate, C.h_protoread]
+PROPS["C03"]["rules"] += [C.s_unsafe, C.h_utf8]
